@@ -481,8 +481,12 @@ fn main() {
             pump_write(&mut client, req, &mut at);
         }
     }
+    // optional: argv[5] = header cut positions "a,b,c" ("all" = every byte on its own, "-" = seeded),
+    //           argv[6] = header kind 0..3 (LOCAL/UNSPEC 16 B, IPv6 52 B, IPv4 28 B, IPv4 + TLV 36 B)
+    let cuts_arg = args.get(5).cloned().unwrap_or_else(|| "-".into());
+    let kind_arg: Option<u64> = args.get(6).and_then(|x| x.parse().ok());
     let hdr_in: Vec<u8> = if mode == "expect" || mode == "relay" {
-        let kind = rng.next() % 4;
+        let kind = kind_arg.unwrap_or(rng.next() % 4) % 4;
         let mut h = if kind == 0 {
             // LOCAL, AF_UNSPEC: 16 bytes
             let mut v = SIG.to_vec();
@@ -504,7 +508,77 @@ fn main() {
     } else {
         vec![]
     };
-    if !hdr_in.is_empty() {
+    if !hdr_in.is_empty() && cuts_arg != "-" {
+        // deterministic fragmentation: each chunk is written on its own (TCP_NODELAY) and the next one only once
+        // the worker has CONSUMED the previous one. The worker is a thread of this process, so its accepted socket
+        // is one of our descriptors: the one whose peer is the client; FIONREAD on it is what the worker has not
+        // read yet (a read-ack that needs no cooperation from anybody).
+        let mut cuts: Vec<usize> = if cuts_arg == "all" {
+            (1..hdr_in.len()).collect()
+        } else {
+            cuts_arg.split(',').filter_map(|x| x.parse().ok()).filter(|c| *c > 0 && *c < hdr_in.len()).collect()
+        };
+        cuts.sort();
+        cuts.dedup();
+        cuts.push(hdr_in.len());
+        let find_worker_fd = || -> Option<i32> {
+            for fd in 0..4096 {
+                let mut sa: libc::sockaddr_in = unsafe { std::mem::zeroed() };
+                let mut sl = std::mem::size_of::<libc::sockaddr_in>() as libc::socklen_t;
+                if unsafe { libc::getpeername(fd, &mut sa as *mut _ as *mut libc::sockaddr, &mut sl) } != 0 || sa.sin_family != libc::AF_INET as u16 {
+                    continue;
+                }
+                let ip = std::net::Ipv4Addr::from(u32::from_be(sa.sin_addr.s_addr));
+                if SocketAddr::new(ip.into(), u16::from_be(sa.sin_port)) == client_addr {
+                    return Some(fd);
+                }
+            }
+            None
+        };
+        let t0 = Instant::now();
+        let mut wfd = None;
+        while wfd.is_none() && t0.elapsed() < DEADLINE {
+            wfd = find_worker_fd();
+            if wfd.is_none() {
+                idle();
+            }
+        }
+        let Some(wfd) = wfd else {
+            println!("note setup-failed the worker never accepted the client connection");
+            return;
+        };
+        let mut prev = 0;
+        let mut acked = 0;
+        for c in cuts {
+            let part = &hdr_in[prev..c];
+            prev = c;
+            let mut at = 0;
+            let t0 = Instant::now();
+            while at < part.len() && t0.elapsed() < DEADLINE {
+                pump_write(&mut client, part, &mut at);
+            }
+            // read-ack: our send queue is empty (the bytes reached the worker's socket) and the worker's
+            // receive queue is empty (it has read them)
+            let t0 = Instant::now();
+            loop {
+                let mut outq: libc::c_int = 0;
+                let mut inq: libc::c_int = 0;
+                unsafe {
+                    libc::ioctl(std::os::fd::AsRawFd::as_raw_fd(&client), libc::TIOCOUTQ, &mut outq);
+                    libc::ioctl(wfd, libc::FIONREAD, &mut inq);
+                }
+                if outq == 0 && inq == 0 {
+                    acked += 1;
+                    break;
+                }
+                if t0.elapsed() > Duration::from_secs(5) {
+                    break;
+                }
+                idle();
+            }
+        }
+        println!("note bb: header of {} bytes written in {} chunk(s), {} consumed by the worker before the next", hdr_in.len(), prev.min(1).max(acked), acked);
+    } else if !hdr_in.is_empty() {
         // a few separate segments (TCP_NODELAY); where they are cut must not matter
         let cuts = [(rng.next() % hdr_in.len() as u64) as usize, (rng.next() % hdr_in.len() as u64) as usize];
         let (a, b) = (cuts[0].min(cuts[1]), cuts[0].max(cuts[1]));
